@@ -1295,3 +1295,54 @@ def _predicate_list_bounded(model, extra):
         if got != "auto":
             problems.append({"option": opt + " (absent)", "got": str(got), "want": "auto"})
     return {"confirmed": bool(problems), "bounded": True, "bound": f"{2 * (len(cases) + 2)} option values", "problems": problems[:3]}
+
+
+@mirror("comparison_list")
+def _comparison_list(model, extra):
+    from ngo.utils.ast import comparison2comparisonlist
+
+    cmpn = build(model["comparison"])
+    got = comparison2comparisonlist(cmpn)
+    want = []
+    lhs = cmpn.term
+    for g in cmpn.guards:
+        want.append((lhs, A.ComparisonOperator(g.comparison), g.term))
+        lhs = g.term
+    same = len(got) == len(want) and all(str(a[0]) == str(b[0]) and A.ComparisonOperator(a[1]) == b[1] and str(a[2]) == str(b[2]) for a, b in zip(got, want))
+    return {"confirmed": not same, "comparison": str(cmpn), "got": [(str(a), str(b), str(c)) for a, b, c in got]}
+
+
+@mirror("chain_split")
+def _chain_split(model, extra):
+    from native.witnesses import models, optimise
+
+    sign = SIGNSTR[model.get("sign", "NoSign")]
+    prg = f"p(1..6). q(X) :- p(X), {sign}2 < X < 5. r(X) :- p(X), {sign}X = X. #show q/1. #show r/1."
+    new = optimise(prg, [])
+    a, b = models(prg), models(new)
+    return {"confirmed": a != b, "program": prg, "optimised": new}
+
+
+@mirror("exline_term")
+def _exline_term(model, extra):
+    from clingo.ast import parse_string
+
+    from ngo.normalize import exline_term
+    from ngo.utils.globals import UniqueVariables
+
+    problems = []
+    stms = []
+    parse_string("a(X,AUX) :- b(X+1,-X,|X|,f(X),3,X..4,(X;1)).", stms.append)
+    rule = stms[-1]
+    for t in rule.body[0].atom.symbol.arguments:
+        uv = UniqueVariables(rule)
+        new, lits = exline_term(t, uv)
+        arith = t.ast_type in (A.ASTType.BinaryOperation, A.ASTType.UnaryOperation)
+        if not arith:
+            if new != t or lits:
+                problems.append(f"{t}: non-arithmetic term changed to {new} with {list(map(str, lits))}")
+            continue
+        ok = new.ast_type == A.ASTType.Variable and str(new) not in ("X", "AUX") and len(lits) == 1 and str(lits[0]) == f"{new} = {t}"
+        if not ok:
+            problems.append(f"{t}: got {new} with {list(map(str, lits))}")
+    return {"confirmed": bool(problems), "problems": problems[:3]}
